@@ -3,7 +3,8 @@
     [maxSize >= 1] (no bound on the number or the length of the keys). *)
 From Coq Require Import ZArith List Lia Bool.
 From Low Require Import Lib.MachInt Lib.Bits Lib.BitSeq Lib.Lex Lib.Bytes Lib.LexExtra_sig
-  Model.Sigbits Spec.SigbitsSpec Spec.ShardRouteSpec Proofs.SigbitsFirstDiff Proofs.SigbitsShardChecker.
+  Model.Sigbits Spec.SigbitsSpec Spec.ShardRouteSpec Spec.ShardSplitSpec
+  Proofs.SigbitsFirstDiff Proofs.SigbitsShardChecker Proofs.SigbitsRuns.
 Import ListNotations.
 Open Scope Z_scope.
 
@@ -410,6 +411,46 @@ Section Shard.
     rewrite c17_adj_pairs_cons2. cbn [forallb fst snd]. rewrite Hab. cbn [andb]. apply IH. exact Ht.
   Qed.
 
+  (** ** ranges of keys, as lists *)
+  Definition rng (a b : nat) : list (list Z) := firstn (b - a) (skipn a keys).
+  Definition shard (t : triple) : list (list Z) := rng (tb t) (te t).
+  Fixpoint ranges_of (a : nat) (ends : list nat) : list (list (list Z)) :=
+    match ends with
+    | [] => []
+    | b :: r => rng a b :: ranges_of b r
+    end.
+
+  Lemma rng_sub_keys a b : sub_keys keys (Z.of_nat a) (Z.of_nat b) = rng a b.
+  Proof.
+    unfold sub_keys, rng. rewrite Nat2Z.id.
+    now replace (Z.to_nat (Z.of_nat b - Z.of_nat a)) with (b - a)%nat by lia.
+  Qed.
+
+  Lemma rng_cons a b : (a < b)%nat -> (b <= length keys)%nat -> rng a b = K a :: rng (S a) b.
+  Proof.
+    intros Hab Hb. unfold rng. rewrite (skipn_K a) by lia.
+    replace (b - a)%nat with (S (b - S a)) by lia. reflexivity.
+  Qed.
+
+  Lemma rng_one a : (a < length keys)%nat -> rng a (S a) = [K a].
+  Proof.
+    intros Ha. rewrite rng_cons by lia. unfold rng. now rewrite Nat.sub_diag.
+  Qed.
+
+  Lemma rng_length a b : (b <= length keys)%nat -> length (rng a b) = (b - a)%nat.
+  Proof. intros Hb. unfold rng. rewrite firstn_length, skipn_length. lia. Qed.
+
+  Lemma rng_app a b c : (a <= b)%nat -> (b <= c)%nat -> rng a b ++ rng b c = rng a c.
+  Proof.
+    intros Hab Hbc. unfold rng.
+    replace (c - a)%nat with ((b - a) + (c - b))%nat by lia.
+    rewrite <- (firstn_skipn (b - a) (firstn (b - a + (c - b)) (skipn a keys))).
+    f_equal.
+    - rewrite firstn_firstn. f_equal. lia.
+    - rewrite skipn_firstn_comm. replace (b - a + (c - b) - (b - a))%nat with (c - b)%nat by lia.
+      f_equal. rewrite skipn_add. f_equal. lia.
+  Qed.
+
   (** ** the split: groups of a too large range *)
   Section Split.
     Variables (lam e F : nat).
@@ -448,20 +489,68 @@ Section Shard.
     Qed.
 
     Hypothesis He : (e <= length keys)%nat.
+
+    Lemma same_next_K j : (lam <= q j)%nat -> same_next lam (K j) (K (S j)) = true <-> (lam < q j)%nat.
+    Proof. intros H. now apply same_next_iff. Qed.
+
+    (** a group is one run *)
+    Lemma runs_single : forall n a, (a + S n = e)%nat ->
+      (forall j, (a <= j)%nat -> (S j < e)%nat -> (lam < q j)%nat) ->
+      runs lam (rng a e) = [rng a e].
+    Proof.
+      induction n as [|n IH]; intros a Ha Hin.
+      - replace e with (S a) by lia. rewrite rng_one by lia. reflexivity.
+      - rewrite (rng_cons a e) by lia.
+        specialize (IH (S a) ltac:(lia) ltac:(intros j H1 H2; apply Hin; lia)).
+        rewrite (rng_cons (S a) e) in * by lia.
+        rewrite (runs_join _ _ _ _ _ _ IH); [reflexivity|].
+        apply same_next_K; [specialize (Hin a ltac:(lia) ltac:(lia)); lia|apply Hin; lia].
+    Qed.
+
+    (** a boundary after key [i] cuts the first run off *)
+    Lemma runs_prepend i : (S i < e)%nat -> q i = lam -> forall n a, (a + n = i)%nat ->
+      (forall j, (a <= j < i)%nat -> (lam < q j)%nat) ->
+      runs lam (rng a e) = rng a (S i) :: runs lam (rng (S i) e).
+    Proof.
+      intros Hie Hq. induction n as [|n IH]; intros a Ha Hin.
+      - assert (a = i) by lia. subst a.
+        rewrite (rng_cons i e), rng_one by lia.
+        rewrite (rng_cons (S i) e) by lia.
+        destruct (runs_hd lam (K (S i)) (rng (S (S i)) e)) as (g & gs & Hr). rewrite Hr.
+        apply (runs_new _ _ _ _ _ _ Hr).
+        destruct (same_next lam (K i) (K (S i))) eqn:E; [|reflexivity].
+        apply same_next_K in E; lia.
+      - rewrite (rng_cons a e) by lia.
+        specialize (IH (S a) ltac:(lia) ltac:(intros j Hj; apply Hin; lia)).
+        rewrite (rng_cons a (S i)), (rng_cons (S a) (S i)) in * by lia.
+        rewrite (runs_join _ _ _ _ _ _ IH); [reflexivity|].
+        apply same_next_K; [specialize (Hin a ltac:(lia)); lia|apply Hin; lia].
+    Qed.
+
+    Lemma runs_groups : forall a ends, groups a ends -> runs lam (rng a e) = ranges_of a ends.
+    Proof.
+      induction 1 as [a Hae HF Hin|a i r Hai Hie HF Hin Hq Hg IH].
+      - cbn [ranges_of]. apply (runs_single (e - a - 1) a); [lia|exact Hin].
+      - cbn [ranges_of]. rewrite <- IH. apply (runs_prepend i Hie Hq (i - a) a); [lia|exact Hin].
+    Qed.
+
     Hypothesis IHdfs : forall a b, (a < b)%nat -> (b <= e)%nat -> (b - a <= F)%nat -> forall st,
       exists ts, dfs keys fd maxSize F (Z.of_nat a) (Z.of_nat b) st = Some (app_st st ts) /\
-                 chain a b ts /\ Forall (fun t => (M a b <= tl t)%nat) ts /\ asc (map pref ts) /\ sep a ts.
+                 chain a b ts /\ Forall (fun t => (M a b <= tl t)%nat) ts /\ asc (map pref ts) /\ sep a ts /\
+                 map shard ts = split_spec F maxSize (rng a b).
 
     Lemma dfs_each_ok : forall a ends, groups a ends -> (lam <= length (K a))%nat -> forall st,
       exists ts, dfs_each (dfs keys fd maxSize F) (map Z.of_nat ends) (Z.of_nat a) st = Some (app_st st ts) /\
                  chain a e ts /\ Forall (fun t => (lam <= tl t)%nat) ts /\
                  ((lam < length (K a))%nat -> Forall (fun t => (lam < tl t)%nat) ts) /\
-                 asc (map pref ts) /\ sep a ts.
+                 asc (map pref ts) /\ sep a ts /\
+                 map shard ts = flat_map (split_spec F maxSize) (ranges_of a ends).
     Proof.
       induction 1 as [a Hae HF Hin|a i r Hai Hie HF Hin Hq Hg IH]; intros Hlam st.
       - cbn [map dfs_each].
-        destruct (IHdfs a e Hae ltac:(lia) HF st) as (ts & Hd & Hc & Hf & Ha & Hs).
-        rewrite Hd. exists ts. split; [reflexivity|]. split; [exact Hc|]. split; [|split; [|split; [exact Ha|exact Hs]]].
+        destruct (IHdfs a e Hae ltac:(lia) HF st) as (ts & Hd & Hc & Hf & Ha & Hs & Hx).
+        rewrite Hd. exists ts. split; [reflexivity|]. split; [exact Hc|].
+        split; [|split; [|split; [exact Ha|split; [exact Hs|cbn [ranges_of flat_map]; now rewrite app_nil_r]]]].
         + eapply Forall_impl; [|exact Hf]. intros t Ht. cbn beta in Ht.
           assert (lam <= M a e)%nat; [|lia].
           apply mlen_ge; [exact Hlam|]. intros j Hj. specialize (Hin j ltac:(lia) ltac:(lia)). lia.
@@ -469,20 +558,21 @@ Section Shard.
           assert (lam < M a e)%nat; [|lia].
           apply mlen_gt; [exact Hlt|]. intros j Hj. apply Hin; lia.
       - cbn [map dfs_each].
-        destruct (IHdfs a (S i) ltac:(lia) ltac:(lia) HF st) as (ts1 & Hd1 & Hc1 & Hf1 & Ha1 & Hs1).
+        destruct (IHdfs a (S i) ltac:(lia) ltac:(lia) HF st) as (ts1 & Hd1 & Hc1 & Hf1 & Ha1 & Hs1 & Hx1).
         rewrite Hd1.
         assert (Hadj : bytes_cmp (K i) (K (S i)) = Lt) by (apply K_adj_lt; lia).
         assert (Hlen : (lam < length (K (S i)))%nat).
         { pose proof (lex_lt_length Z.compare Z.eqb Z_eqb_spec Z.compare_eq_iff _ _ Hadj) as Hl.
           fold lcp_bytes in Hl. fold (q i) in Hl. lia. }
-        destruct (IH ltac:(lia) (app_st st ts1)) as (ts2 & Hd2 & Hc2 & Hf2 & Hf2' & Ha2 & Hs2).
+        destruct (IH ltac:(lia) (app_st st ts1)) as (ts2 & Hd2 & Hc2 & Hf2 & Hf2' & Ha2 & Hs2 & Hx2).
         rewrite Hd2, app_st_app. exists (ts1 ++ ts2). split; [reflexivity|].
         specialize (Hf2' Hlen).
         assert (HM : (lam <= M a (S i))%nat).
         { apply mlen_ge; [exact Hlam|]. intros j Hj. specialize (Hin j ltac:(lia)). lia. }
         assert (HM' : (lam < length (K a))%nat -> (lam < M a (S i))%nat).
         { intros Hlt. apply mlen_gt; [exact Hlt|]. intros j Hj. apply Hin; lia. }
-        split; [eapply chain_app; eassumption|]. split; [|split; [|split]].
+        split; [eapply chain_app; eassumption|]. split; [|split; [|split; [|split]]].
+        5: { cbn [ranges_of flat_map]. now rewrite map_app, Hx1, Hx2. }
         4: { (* keys of the first group against the shards of the later groups *)
           apply Forall_app. split; [exact Hs1|].
           unfold sep in *. rewrite Forall_forall in *. intros t Ht i0 Hi0.
@@ -541,14 +631,17 @@ Section Shard.
   (** ** the recursion *)
   Lemma dfs_ok : forall fuel s e, (s < e)%nat -> (e <= length keys)%nat -> (e - s <= fuel)%nat -> forall st,
     exists ts, dfs keys fd maxSize fuel (Z.of_nat s) (Z.of_nat e) st = Some (app_st st ts) /\
-               chain s e ts /\ Forall (fun t => (M s e <= tl t)%nat) ts /\ asc (map pref ts) /\ sep s ts.
+               chain s e ts /\ Forall (fun t => (M s e <= tl t)%nat) ts /\ asc (map pref ts) /\ sep s ts /\
+               map shard ts = split_spec fuel maxSize (rng s e).
   Proof.
     induction fuel as [|F IH]; intros s e Hse He Hf st; [lia|].
     cbn [dfs]. rewrite nthZ_keys by lia.
     destruct (Z.leb_spec (Z.of_nat e - Z.of_nat s) maxSize) as [Hsz|Hsz].
     - (* small enough: one shard *)
       rewrite idx_range_nat. unfold zlen. rewrite shard_min_ok by lia. fold (M s e).
-      exists [(s, e, M s e)]. split; [reflexivity|]. split; [|split; [|split; [exact I|]]].
+      exists [(s, e, M s e)]. split; [reflexivity|]. split; [|split; [|split; [exact I|split]]].
+      4: { cbn [split_spec]. unfold zlen. rewrite rng_length by exact He.
+           destruct (Z.leb_spec (Z.of_nat (e - s)) maxSize); [reflexivity|lia]. }
       3: { constructor; [|constructor]. cbn [tb fst]. intros i Hi. lia. }
       + cbn [chain tb te tl fst snd]. repeat split; try lia.
       + constructor; [cbn [tl snd]; lia|constructor].
@@ -563,11 +656,15 @@ Section Shard.
             pose proof (mlen_le_q s (e - s - 1) (length (K s)) s ltac:(lia)). lia.
           + exists j. split; [lia|exact Hq]. }
       destruct (dfs_each_ok (M s e) e F He) with (a := s) (ends := split_ends (M s e) (seq s (e - s - 1)) ++ [e]) (st := st)
-        as (ts & Hd & Hc & Hfa & _ & Ha & Hs).
+        as (ts & Hd & Hc & Hfa & _ & Ha & Hs & Hx).
       + intros a b Hab Hbe HF st'. apply IH; lia.
       + exact Hg.
       + apply mlen_le_acc.
-      + exists ts. repeat split; assumption.
+      + exists ts. repeat split; try assumption.
+        rewrite Hx. cbn [split_spec]. unfold zlen. rewrite rng_length by exact He.
+        destruct (Z.leb_spec (Z.of_nat (e - s)) maxSize); [lia|].
+        rewrite <- (runs_groups (M s e) e F He _ _ Hg).
+        rewrite <- rng_sub_keys, lcp_all_sub by lia. now rewrite rng_sub_keys.
   Qed.
 
   (** ** from the shard list to the checker *)
@@ -613,15 +710,46 @@ Section Shard.
 
   Lemma ShardByPrefix_triples : keys <> [] ->
     exists ts, ShardByPrefix keys maxSize = Some (outL ts, outB 0 ts) /\
-               chain 0 (length keys) ts /\ asc (map pref ts) /\ sep 0 ts.
+               chain 0 (length keys) ts /\ asc (map pref ts) /\ sep 0 ts /\
+               map shard ts = split_spec (S (length keys)) maxSize keys.
   Proof.
     intros Hne. unfold ShardByPrefix. rewrite (FirstDiffBits_exact keys Hne Hok). fold fd.
     assert (Hlen : (0 < length keys)%nat) by (destruct keys; [congruence|cbn [length]; lia]).
     replace (zlen fd + 1) with (Z.of_nat (length keys)) by (unfold zlen; rewrite fd_length; lia).
     destruct (dfs_ok (S (length keys)) 0 (length keys) Hlen (le_n _) ltac:(lia) ([], [0]))
-      as (ts & Hd & Hc & _ & Ha & Hsep).
+      as (ts & Hd & Hc & _ & Ha & Hsep & Hx).
     change (Z.of_nat 0) with 0 in Hd. rewrite Hd.
-    exists ts. split; [reflexivity|]. repeat split; assumption.
+    exists ts. split; [reflexivity|]. repeat split; try assumption.
+    rewrite Hx. f_equal. unfold rng. rewrite Nat.sub_0_r. cbn [skipn]. apply firstn_all.
+  Qed.
+
+  (** ** the output as a function of the keys *)
+  Lemma chain_outL : forall ts s e, chain s e ts -> (e <= length keys)%nat ->
+    outL ts = map (fun sh => zlen (lcp_all sh)) (map shard ts).
+  Proof.
+    induction ts as [|t r IH]; intros s e H He; [reflexivity|].
+    cbn [chain] in H. destruct H as (A & B & C & D & E). pose proof (chain_le _ _ _ E).
+    unfold outL in *. cbn [map]. f_equal; [|exact (IH _ _ E He)].
+    unfold shard, zlen. rewrite A, <- rng_sub_keys, lcp_all_sub by lia. now rewrite D.
+  Qed.
+
+  Lemma chain_outB : forall ts s e, chain s e ts -> (e <= length keys)%nat ->
+    outB s ts = bounds_of (Z.of_nat s) (map shard ts).
+  Proof.
+    induction ts as [|t r IH]; intros s e H He; [reflexivity|].
+    cbn [chain] in H. destruct H as (A & B & C & D & E). pose proof (chain_le _ _ _ E).
+    unfold outB in *. cbn [map bounds_of]. f_equal.
+    replace (Z.of_nat s + zlen (shard t)) with (Z.of_nat (te t)).
+    - exact (IH _ _ E He).
+    - unfold shard, zlen. rewrite A, rng_length by lia. lia.
+  Qed.
+
+  Lemma chain_concat : forall ts s e, chain s e ts -> concat (map shard ts) = rng s e.
+  Proof.
+    induction ts as [|t r IH]; intros s e H; cbn [chain] in H.
+    - subst. unfold rng. now rewrite Nat.sub_diag.
+    - destruct H as (A & B & C & D & E). pose proof (chain_le _ _ _ E).
+      cbn [map concat]. rewrite (IH _ _ E). unfold shard. rewrite A. apply rng_app; lia.
   Qed.
 
   Lemma triples_shard_ok ts : chain 0 (length keys) ts -> asc (map pref ts) ->
@@ -682,7 +810,7 @@ Theorem ShardByPrefix_shard_ok keys maxSize :
   exists L B, ShardByPrefix keys maxSize = Some (L, B) /\ shard_ok keys maxSize L B = true.
 Proof.
   intros Hne Hok Hasc Hms.
-  destruct (ShardByPrefix_triples keys Hok maxSize Hasc Hms Hne) as (ts & H & Hc & Ha & _).
+  destruct (ShardByPrefix_triples keys Hok maxSize Hasc Hms Hne) as (ts & H & Hc & Ha & _ & _).
   eexists _, _. split; [exact H|]. now apply triples_shard_ok.
 Qed.
 
@@ -692,10 +820,26 @@ Theorem ShardByPrefix_route keys maxSize :
   exists L B, ShardByPrefix keys maxSize = Some (L, B) /\ shard_spec keys maxSize L B /\ route_spec keys L B.
 Proof.
   intros Hne Hok Hasc Hms.
-  destruct (ShardByPrefix_triples keys Hok maxSize Hasc Hms Hne) as (ts & H & Hc & Ha & Hs).
+  destruct (ShardByPrefix_triples keys Hok maxSize Hasc Hms Hne) as (ts & H & Hc & Ha & Hs & _).
   eexists _, _. split; [exact H|]. split.
   - apply shard_ok_sound. now apply triples_shard_ok.
   - now apply (triples_route keys maxSize Hasc).
+Qed.
+
+(** the output is the naive recursive split, and the split loses no key *)
+Theorem ShardByPrefix_exact keys maxSize :
+  keys <> [] -> keys_ok keys -> strict_asc keys -> 1 <= maxSize ->
+  ShardByPrefix keys maxSize = Some (spec_ShardByPrefix keys maxSize) /\
+  concat (split_spec (S (length keys)) maxSize keys) = keys.
+Proof.
+  intros Hne Hok Hasc Hms.
+  destruct (ShardByPrefix_triples keys Hok maxSize Hasc Hms Hne) as (ts & H & Hc & _ & _ & Hx).
+  unfold spec_ShardByPrefix. rewrite <- Hx. split.
+  - rewrite H. f_equal. f_equal.
+    + eapply chain_outL; [exact Hc|apply le_n].
+    + change 0 with (Z.of_nat 0). eapply chain_outB; [exact Hc|apply le_n].
+  - erewrite chain_concat by exact Hc. unfold rng.
+    rewrite Nat.sub_0_r. cbn [skipn]. apply firstn_all.
 Qed.
 
 Theorem ShardByPrefix_correct keys maxSize :
